@@ -10,7 +10,7 @@ import re
 from lib import gram, refspans, refparser, treeconv
 
 ID = 'C15'
-TECHNIQUE = 'metamorphic monitor: tree of the rewritten text vs tree of the original for every insignificant-layout rewrite at every applicable position'
+TECHNIQUE = 'metamorphic monitor: tree of the rewritten text vs tree of the original for every insignificant-layout rewrite at every applicable position; bases also from a coverage-guided corpus (atheris); equal trees also evaluated under several names mappings'
 RULE = ('valid programs (random derivations of the grammar, 1-5 statements, accepted by implementation and reference) x rewrites: (1) extra blanks/tabs in any token '
         'gap, (2) end-of-line comments before existing line ends, (3) line breaks inside brackets, (4) ; <-> newline between statements, (5) blank statements, '
         '(6) LF -> CRLF, (7) a trailing comma after the last argument/element/entry of every call, method call, pipe call, list and dict, one at a time and all '
